@@ -31,7 +31,7 @@ CHECKS = {
          "reflect.MapIter and unicode/utf8 are trusted to match Go's range; element-level equality beyond these facts is not decided; a hand-written decoder would be reported undecided rather than passed.",
          "DESIGN.md §4 C10"),
  "C12": ("abstract interpretation of the statement rewriter on a symbolic AST of every statement kind; hole-coverage path rule; abstract drive of the branch pass over all context nestings",
-         "Decides the structural core of 'rejected or preserved, never silently mistranslated': unsupported kinds are rejected on every path; every original part that can contain a yield and still reaches the output is covered by a yield-freeness test answered true on its path (so no Yield can survive as a no-op stub); every nested statement list that reaches the output went through the rewriter's recursion (so nested unsupported constructs were seen); the branch pass keeps/replaces/rejects break/continue/fallthrough/goto exactly per the Go spec's target rule for all context nestings up to depth 3, with balanced context stacks; functions are marked as generators only after the signature check.",
+         "Decides the structural core of 'rejected or preserved, never silently mistranslated': unsupported kinds are rejected on every path; every original part that can contain a yield and still reaches the output is covered by a yield-freeness test answered true on its path (so no Yield can survive as a no-op stub); every nested statement list that reaches the output went through the rewriter's recursion (so nested unsupported constructs were seen); the branch pass keeps/replaces/rejects break/continue/fallthrough/goto exactly per the Go spec's target rule for all context nestings up to depth 3, with balanced context stacks; functions (declarations and literals) are marked as generators only after the signature check; every recover() in the rewriter re-raises what it caught, so a diagnostic always ends the run (RW.RECOVER).",
          "Relies on go/ast grammar facts (init/post are simple statements, switch bodies hold case clauses); the oracles mustNoYield/containsYield are trusted to mean yield-freeness (their own traversal is checked under C13's guard rule); behaviour of accepted programs is C01-C06.",
          "DESIGN.md §4 C12"),
  "C01": ("decision-table extraction by abstract interpretation (block tables, termination checker vs spec reference on enumerated shapes, branch pass driven over context nestings), lowering-vs-runtime signal agreement, no-loss and template rules on the symbolic rewriting of every statement kind",
